@@ -15,7 +15,7 @@ import (
 func TestVerif_C30(t *testing.T) {
 	r := verifrt.Start(t, "C30")
 	defer r.Finish()
-	r.Rule("case = one fresh grain identity on 3 real actor systems (real remoting, shared linearizable fake registry with atomic NX claim) x one scenario drawn from: random-burst, same-node-burst, exists-then-claim, first-lookup-then-claim, claim-then-hold, activation-failure (error/panic), publish-fail-after-claim, rollback-remove-fail, republish-fail-on-active-owner, deactivate-vs-send, stale-owner-remote-activate, lost-claim-owner-vanishes, owner-republish-fails-remote-caller, random-churn; logical nodes A,B,C are a seeded permutation of the systems; callers are TellGrain / AskGrain / GrainIdentity. oracle = process-wide live-instance gauge per identity (OnActivate success .. OnDeactivate entry) must never exceed 1, and at quiescence the registry record must name the node holding the live instance. non-trivial = the scenario's interleaving was actually reached (its hold points were hit / its injected fault fired / claims from >=2 nodes contended), measured; distinct by scenario, permutation and seed")
+	r.Rule("case = one fresh grain identity on 3 real actor systems (real remoting, shared linearizable fake registry with atomic NX claim) x one scenario drawn from: random-burst, same-node-burst, exists-then-claim, first-lookup-then-claim, claim-then-hold, activation-failure (error/panic), send-time-owner-then-rollback (a second sender on the claiming node is held after its send-time owner lookup while the first sender's failed activation is rolled back and another node claims and activates), publish-fail-after-claim, rollback-remove-fail, republish-fail-on-active-owner, deactivate-vs-send, stale-owner-remote-activate, lost-claim-owner-vanishes, owner-republish-fails-remote-caller, random-churn; logical nodes A,B,C are a seeded permutation of the systems; callers are TellGrain / AskGrain / GrainIdentity. oracle = process-wide live-instance gauge per identity (OnActivate success .. OnDeactivate entry) must never exceed 1, and at quiescence the registry record must name the node holding the live instance. non-trivial = the scenario's interleaving was actually reached (its hold points were hit / its injected fault fired / claims from >=2 nodes contended), measured; distinct by scenario, permutation and seed")
 	r.Assume("the registry's per-key NX put (olric Put with NX) is atomic and the registry is linearizable per key; the fake registry implements exactly that with one mutex")
 	r.Assume("a registry operation the harness makes fail does not touch the store (the failure is a lost request, not a lost reply)")
 
@@ -58,6 +58,8 @@ func TestVerif_C30(t *testing.T) {
 		r.Count("millis:"+scen.Name, out.Millis)
 		if out.Achieved {
 			r.Count("achieved:"+scen.Name, 1)
+		} else if len(out.Notes) > 0 {
+			r.Count("not-achieved:"+scen.Name+": "+out.Notes[0], 1)
 		}
 		r.Count("activations_ok", int64(out.Activated))
 		r.Count("activations_failed_injected", int64(out.Failed))
